@@ -36,6 +36,23 @@ def gen_restart_together(r, tier):
     return ops
 
 
+def gen_cancelled_start(r, tier):
+    """an analysed fan is started again and the start is cancelled (SIGTERM, a failing peer) a few milliseconds in - during
+    the start-up wait, the look-ups, or the first cycles; the start after that must find everything stored as it was
+    (oracle-only; seed C15h: the aborted start "cleaned up" the stored PWM map of a fan whose curve it had not loaded yet)"""
+    ops = []
+    for _ in range(8 if tier == "quick" else 150):
+        p = r.below(2)
+        ops += [f"#case su parallel={p}", f"su.open parallel={p} yield_us=0",
+                f"su.fan fan=f1 kind=hwmon cfgmap=0 minmax={r.below(2)} hasrpm=1 ns={r.below(2)} quant={r.pick([0, 2, 8])} spinat={r.range(5, 90)} mapstyle=identity",
+                "su.start fan=f1"]
+        for _ in range(r.range(1, 3)):
+            ops.append(f"su.together fans=f1 delays_us=0 cancel_us={r.pick([500, 2000, 8000, 20000, 60000])}")
+            ops.append("su.start fan=f1")
+            ops.append("su.data fan=f1")
+    return ops
+
+
 class C15(Prop):
     id = "C15"
     lean_modules = ["Fan2go.Props.C15", "Fan2go.Props.C15b"]
@@ -51,6 +68,7 @@ class C15(Prop):
     assumptions = ["the bodies of `fan2go fan reset` / `fan init` are re-stated in the harness; their call sequences are regenerated facts (fact_cli_bodies)",
                    "database operations succeed (C14's subject)"]
     streams = [Stream("startup", gen_su, parallel=8), Stream("startup-data", gen_su_data, parallel=8),
+               Stream("cancelled-start", gen_cancelled_start, parallel=8, exact=False, contract=lambda op, a, b: True),
                # oracle-only (real goroutines, real bbolt file locks): restarts of several fans at once
                Stream("restart-together", gen_restart_together, parallel=2, exact=False, contract=lambda op, a, b: True, timeout=1800)]
 
